@@ -176,7 +176,7 @@ CHI2_CRIT = {2: 41.5, 5: 48.0, 23: 86.0}  # upper critical values at p = 1e-9
 
 
 def shuffle(ctx, tally):
-    runs = [(3, 2, 30)] if ctx.quick else [(3, 1, 90), (3, 2, 240), (3, 3, 240), (2, 1, 60)]
+    runs = [(3, 2, 30), (2, 2, 24)] if ctx.quick else [(3, 1, 90), (3, 2, 240), (3, 3, 240), (2, 1, 60)]
     seen_nulls = Counter()
     total = 0
     for n, k, reps in runs:
@@ -217,6 +217,12 @@ def shuffle(ctx, tally):
         if len(rows) >= 20 and len(arr) < 2 and ways > 1:
             tally.append((f"{len(rows)} commits of {k} proofs into {n} slots all produced the same slot arrangement {list(arr)[0] if arr else None}: the slot order is not shuffled",
                           {"engine": "shuffle-record", "n": n, "k": k}))
+        # fewer than half of the possible arrangements in >= 24 commits: under a uniform shuffle the chance is at most
+        # C(ways, ways/2) * 2^-commits (< 2e-8 for 6 ways / 30 commits, < 2e-7 for 2 ways / 24 commits).  A shuffle that
+        # only draws the padding slots (k/n of the real proofs stay where they were supplied) reaches exactly half.
+        if len(rows) >= 24 and 2 <= len(arr) <= ways // 2 and math.comb(ways, ways // 2) * 0.5 ** len(rows) < 1e-6:
+            tally.append((f"only {len(arr)} of the {ways} possible slot arrangements occurred in {len(rows)} commits of {k} proofs into {n} slots: "
+                          f"the slot order is not a uniformly random permutation", {"engine": "shuffle-record", "n": n, "k": k, "seen": {str(a): c for a, c in arr.items()}}))
         if not ctx.quick and len(rows) >= 30 * ways:
             if len(arr) < ways:
                 tally.append((f"only {len(arr)} of the {ways} slot arrangements were observed in {len(rows)} commits", {"engine": "shuffle-record", "n": n, "k": k, "seen": {str(a): c for a, c in arr.items()}}))
